@@ -290,7 +290,7 @@ func (ex *explorer) newInterpreter() (*interpreter, error) {
 		funcPtrs:   map[*ssa.Function]uintptr{},
 		fnCount:    map[*ssa.Function]int64{},
 		uninitRead: map[string]bool{},
-		files:      map[string]string{},
+		files:      map[string]value{},
 		cfg:        ex.cfg,
 		typeCache:  map[string]types.Type{},
 		harnessState: map[string]value{},
